@@ -122,5 +122,54 @@ class C19:
 
 from deepbase import DeepPart
 
+
+class C19Real(C19):
+    """the real TrackerClient::run loop (reqwest over loopback TCP, real DELAY_MS sleeps) against a tracker that fails in
+    scripted ways -- nothing listening, connection closed without an answer, HTTP 500/404, a body that is not bencode, a
+    failure reason, an empty body -- any number of times before it answers (nothing-listening outcomes first: the port stays
+    reserved by a bound socket that does not listen yet)"""
+    harness_sub = "url"
+    harness_timeout = 900
+    harness_shards = 16
+    rule = ""
+    OUTCOMES = ["refused", "drop", "500", "404", "garbage", "failure", "empty"]
+    BODIES = [b"d8:intervali1800e5:peerslee",
+              b"d8:intervali1800e5:peersld2:ip9:127.0.0.17:peer id20:AAAAABBBBBCCCCCDDDDD4:porti6881eeee",
+              b"d8:intervali1e5:peersld2:ip8:10.0.0.17:peer id20:AAAAABBBBBCCCCCDDDDD4:porti1eed2:ip3:bad7:peer id3:xyz4:porti2eed2:ip7:1.2.3.47:peer id20:\x00\xff2345678901234567894:porti65535eeee"]
+
+    def mkreal(self, script, body, kind):
+        return Case("trkreal %s %s" % (",".join(script) or "-", body.hex()), kind, {"script": script, "reply": body[:60].decode("latin1")})
+
+    def corpus(self):
+        return [self.mkreal([], self.BODIES[1], "real-tracker"), self.mkreal(["refused", "500", "garbage"], self.BODIES[1], "real-tracker"),
+                self.mkreal(["drop", "failure", "empty", "404"], self.BODIES[2], "real-tracker")]
+
+    def gen(self, rng, tier):
+        k = {"quick": 13, "thorough": 150, "search": 40}.get(tier, 13)
+        out = []
+        for _ in range(k):
+            n = rng.choice([0, 1, 1, 2, 2, 3, 4]) if tier != "thorough" else rng.choice([0, 1, 2, 3, 4, 6, 9])
+            script = [rng.choice(self.OUTCOMES) for _ in range(n)]
+            script.sort(key=lambda x: x != "refused")       # nothing listens yet: only at the beginning (harness rule)
+            out.append(self.mkreal(script, rng.choice(self.BODIES), "real-tracker"))
+        return out
+
+    def coq_case(self, c, out):
+        t = c.line.split()
+        script = [] if t[1] == "-" else t[1].split(",")
+        f = out.split()
+        o = dict(zip(f[0::2], f[1::2]))
+        cmds = [] if o["CMDS"] == "-" else o["CMDS"].split(",")
+        ps = [] if o["PEERS"] == "-" else [x.split("/") for x in o["PEERS"].split(",")]
+        b = lambda x: "true" if x else "false"
+        return "CReal %d %d %s [%s] [%s] %s %s %s" % (
+            len(script), script.count("refused"), coq_bytes(hexb(t[2])),
+            ";".join("true" if x == "R" else "false" for x in cmds if x in ("R", "F")) + (";false;false" if "NONE" in cmds else ""),
+            "; ".join("(%s, %s)" % (coq_bytes(hexb(a)), coq_bytes(hexb(i))) for a, i in ps),
+            o["REQS"], b(o["DONE"] == "1"), b(o["EXTRA"] == "1"))
+
+    def model_term(self, c):
+        return "(real_model %d)" % (0 if c.line.split()[1] == "-" else len(c.line.split()[1].split(",")))
+
 PROP = C19()
-PROP.parts = [PROP, DeepPart("C19", "resp", "resp", b"d8:intervali1e5:peersle3:zzz", b"e", "TrackerResp::from_bencode")]
+PROP.parts = [PROP, DeepPart("C19", "resp", "resp", b"d8:intervali1e5:peersle3:zzz", b"e", "TrackerResp::from_bencode"), C19Real()]
